@@ -382,6 +382,60 @@ func TestC05(t *testing.T) {
 		c.rec.Bulk("decode-sample", ev2, nt2, cl2)
 	}
 
+	// ---- two-field transitions on one decoded object (all three groups present) --------------
+	// every pair of the 14 fields, every pair of start values and of end values, two contexts:
+	// assign, score, re-assign exactly those two fields, score again (see C03 layer 5).
+	{
+		var evals int64
+		nviol := 0
+		var dims []int
+		for _, m := range spec.V2Metrics {
+			dims = append(dims, len(m.Codes))
+		}
+		get := func(f *fieldCase2, i int) *int {
+			switch {
+			case i < 6:
+				return &f.B[i]
+			case i < 9:
+				return &f.T[i-6]
+			}
+			return &f.E[i-9]
+		}
+		contexts := []fieldCase2{
+			{B: [6]int{2, 2, 2, 2, 2, 2}, HasT: true, T: [3]int{3, 3, 2}, HasE: true, E: [5]int{4, 3, 2, 2, 2}},
+			{B: [6]int{0, 0, 1, 1, 0, 1}, HasT: true, T: [3]int{1, 1, 1}, HasE: true, E: [5]int{2, 1, 0, 1, 3}},
+		}
+		k := 0
+		for _, ctx0 := range contexts {
+			for i := 0; i < len(dims) && nviol == 0; i++ {
+				for j := i + 1; j < len(dims) && nviol == 0; j++ {
+					k++
+					if !mine(k) {
+						continue
+					}
+					for a1 := 0; a1 < dims[i]; a1++ {
+						for a2 := 0; a2 < dims[j]; a2++ {
+							prev := ctx0
+							*get(&prev, i), *get(&prev, j) = a1, a2
+							for b1 := 0; b1 < dims[i]; b1++ {
+								for b2 := 0; b2 < dims[j]; b2++ {
+									if (a1 == b1 && a2 == b2) || nviol > 0 {
+										continue
+									}
+									cur := prev
+									*get(&cur, i), *get(&cur, j) = b1, b2
+									evals++
+									evalEnum(c, "fields-reused", reusedCase2{Prev: prev.withText(), Cur: cur.withText()}, checkC05Reused, &nviol)
+								}
+							}
+						}
+					}
+				}
+			}
+		}
+		c.rec.Bulk("two-field-transitions", evals, evals, map[string]int64{"two-field-transition": evals})
+	}
+
 	// ---- rapid: random vectors (shrinkable) ------------------------------------------------
 	c.rapidStage("rapid", pick(16000, 200000), func(rt *rapid.T) {
 		vec := gen.ValidV2(spec.Environmental).Draw(rt, "vector")
